@@ -19,6 +19,7 @@ pub mod units;
 pub mod run;
 pub mod special;
 pub mod canary;
+pub mod fuzzglue;
 pub mod history;
 pub mod neon_emu;
 pub mod neon_src;
